@@ -2,6 +2,7 @@ package scen
 
 import (
 	ipfslog "berty.tech/go-ipfs-log"
+	"berty.tech/go-ipfs-log/entry"
 	cid "github.com/ipfs/go-cid"
 )
 
@@ -14,3 +15,11 @@ func cidsToStringers(cs []cid.Cid) []interface{ String() string } {
 }
 
 type interfaceEntry = ipfslog.Entry
+
+func toLogEntries(es []*entry.Entry) []ipfslog.Entry {
+	out := make([]ipfslog.Entry, len(es))
+	for i, e := range es {
+		out[i] = e
+	}
+	return out
+}
